@@ -16,6 +16,8 @@ def check(tree, rep, tier='quick', seed=0):
     R.k9_store_then_meet(core, rep)          # an answer that is stored is announced at once: the lines waiting for it are re-attempted in this very run and the re-run computes nothing new
     R.k17_prompt_demand(core, rep)
     R.k29_prompt_quotes_the_waiters(core, rep)
+    R.k27_complete_diagnostics(core, rep)    # the failure report quotes, for each missing input, the lines the solver recorded for that input
+    R.k1b_cli_reports(core, rep)
     R.k11i_strict_decoding(core, rep)    # no byte of the input file is dropped or replaced before the validators see the text
     R.k35_store_loaded_eagerly(core, rep)
     R.k18b_write_reaches_the_file(core, rep)     # 'answers were written back': the write lands in the named file wherever that file lives
